@@ -534,3 +534,24 @@ def loop_counter(paths, body, hv):
     if nback == 0 or step is None:
         return None
     return init, step
+
+
+def read_as_part_of(f, key, stop=None):
+    """private helpers that are read as part of the function `key` whatever their size: loop-free ones only `key` uses,
+    and loop-carrying ones it reaches (a scan moved into a function of its own, possibly shared with another caller);
+    `stop(name)` names functions never looked into (the position-state writers)"""
+    out = set()
+    try:
+        from .names import names as role_names
+        out |= set(role_names(f).exclusive_helpers(key))
+    except Exception:
+        pass
+    for k in reachable_bodies(f, [key], stop=stop):
+        hb = f.bodies[k]
+        if k == key or hb.kind not in ("Fn", "AssocFn") or not hb.crate.startswith("cozy_chess") or hb.promoted is not None:
+            continue
+        if f.fns.get(k, {}).get("pub") or (stop and stop(k)):
+            continue
+        if cfgmod.natural_loops(hb):
+            out.add(k)
+    return out
